@@ -21,6 +21,19 @@ type Profile struct {
 	Concurrent   bool // consume steps may issue several requests at once
 }
 
+// pct is an unbiased percentage draw (rapid's integer generators favour small
+// values, so IntRange(0,99) < p is not a p% event).
+func pct(t *rapid.T, label string, p int) bool {
+	v := 0
+	for i := 0; i < 7; i++ {
+		v <<= 1
+		if rapid.Bool().Draw(t, label) {
+			v |= 1
+		}
+	}
+	return v*100/128 < p
+}
+
 var advances = []int{1, 199, 200, 201, 500, 999, 1000, 1001, 3000, 4999, 5000, 5001, 7000}
 
 var metaKeysChoices = [][]string{{"tenant"}, {"Tenant", "env"}, {"TENANT"}, {"env", "tenant", "Region"}}
@@ -94,14 +107,14 @@ func GenScenario(t *rapid.T, p Profile) *Scenario {
 		conc = []int{0}
 	}
 	sc.Cfg.MaxConc = rapid.SampledFrom(conc).Draw(t, "conc")
-	sc.Cfg.Early = rapid.IntRange(0, 99).Draw(t, "early") < p.EarlyPct
+	sc.Cfg.Early = pct(t, "early", p.EarlyPct)
 	if p.Meta {
 		sc.Cfg.Keys = rapid.SampledFrom(metaKeysChoices).Draw(t, "keys")
 		sc.Cfg.Limit = rapid.IntRange(0, 3).Draw(t, "limit")
 	}
-	sc.Gated = rapid.IntRange(0, 99).Draw(t, "gated") < p.Gated
+	sc.Gated = pct(t, "gated", p.Gated)
 	if sc.Gated {
-		sc.HonourCancel = rapid.IntRange(0, 99).Draw(t, "honour") < p.HonourCancel
+		sc.HonourCancel = pct(t, "honour", p.HonourCancel)
 	}
 	sc.Spans = p.Spans
 	maxReqs := p.MaxReqs
